@@ -323,7 +323,7 @@ func (p *Program) parseClause(c *Contract, word, rest, src string) error {
 		c.Invariants = append(c.Invariants, cl)
 	case "callback":
 		// callback f(kv) guarantees E   |   callback f preserves items
-		m := regexp.MustCompile(`^(\w+)\s*(?:\(([^)]*)\))?\s*(guarantees|preserves)\s+(.*)$`).FindStringSubmatch(rest)
+		m := regexp.MustCompile(`^(\w+)\s*(?:\(([^)]*)\))?\s*(guarantees|preserves)\s*(.*)$`).FindStringSubmatch(rest)
 		if m == nil {
 			return fmt.Errorf("bad callback clause %q", rest)
 		}
